@@ -142,7 +142,11 @@ def _shipped_body(ctx):
             sd = r.randrange(1 << 30)
             acts = [r.choice(desc['actions']) for _ in range(12)]
             f1.set_seed(sd); f2.set_seed(sd)
-            f1.reset(); f2.reset()
+            try:
+                f1.reset(); f2.reset()
+            except Exception as e:  # noqa: BLE001
+                ctx.violation(f'{name}: resetting an environment built from the file raised {type(e).__name__}: {e}', {'file': name, 'seed': sd})
+                continue
             t1, t2 = [wire.cstate(f1.state)], [wire.cstate(f2.state)]
             def one(env, a):
                 try:
